@@ -155,9 +155,9 @@ func (r *c01Chunked) Read(p []byte) (int, error) {
 
 type c01Frame struct {
 	start, prefixEnd, end int
-	payload              []byte
-	compressed           bool
-	threshold            int
+	payload               []byte
+	compressed            bool
+	threshold             int
 }
 
 // c01RefParse decrypts (reference CFB8, from encFrom on) and parses the wire with
@@ -228,13 +228,13 @@ func (c *c01Conn) Read(p []byte) (int, error) {
 	}
 	return c.in.Read(p)
 }
-func (c *c01Conn) Write(p []byte) (int, error)        { return c.out.Write(p) }
-func (c *c01Conn) Close() error                       { return nil }
-func (c *c01Conn) LocalAddr() net.Addr                { return c01Addr{} }
-func (c *c01Conn) RemoteAddr() net.Addr               { return c01Addr{} }
-func (c *c01Conn) SetDeadline(time.Time) error        { return nil }
-func (c *c01Conn) SetReadDeadline(time.Time) error    { return nil }
-func (c *c01Conn) SetWriteDeadline(time.Time) error   { return nil }
+func (c *c01Conn) Write(p []byte) (int, error)      { return c.out.Write(p) }
+func (c *c01Conn) Close() error                     { return nil }
+func (c *c01Conn) LocalAddr() net.Addr              { return c01Addr{} }
+func (c *c01Conn) RemoteAddr() net.Addr             { return c01Addr{} }
+func (c *c01Conn) SetDeadline(time.Time) error      { return nil }
+func (c *c01Conn) SetReadDeadline(time.Time) error  { return nil }
+func (c *c01Conn) SetWriteDeadline(time.Time) error { return nil }
 
 // c01Rig drives netmc.NewWriter / netmc.NewReader (bufio + Encoder/Decoder +
 // EnableEncryption / SetCompressionThreshold) with Flush calls at generated points.
@@ -273,8 +273,10 @@ func (r *c01Rig) capBytes() int {
 	}
 	return codec.UncompressedCap
 }
-func (r *c01Rig) writeCompression(threshold, level int) error { return r.w.SetCompressionThreshold(threshold) }
-func (r *c01Rig) writeEncryption(secret []byte) error         { return r.w.EnableEncryption(secret) }
+func (r *c01Rig) writeCompression(threshold, level int) error {
+	return r.w.SetCompressionThreshold(threshold)
+}
+func (r *c01Rig) writeEncryption(secret []byte) error { return r.w.EnableEncryption(secret) }
 func (r *c01Rig) write(i int, payload []byte) error {
 	if _, err := r.w.Write(payload); err != nil {
 		return err
@@ -294,8 +296,8 @@ func (r *c01Rig) startRead(wire []byte, chunks []int) {
 	r.rconn = &c01Conn{in: r.rd}
 	r.r = NewReader(r.rconn, r.dir, time.Minute, logr.Discard())
 }
-func (r *c01Rig) readCompression(threshold int) { _ = r.r.SetCompressionThreshold(threshold) }
-func (r *c01Rig) readEncryption(secret []byte) error { return r.r.EnableEncryption(secret) }
+func (r *c01Rig) readCompression(threshold int)         { _ = r.r.SetCompressionThreshold(threshold) }
+func (r *c01Rig) readEncryption(secret []byte) error    { return r.r.EnableEncryption(secret) }
 func (r *c01Rig) decode() (*proto.PacketContext, error) { return r.r.ReadPacket() }
 func c01IsFrameTooLarge(err error) bool {
 	var fe *codec.FrameTooLargeError
@@ -307,7 +309,7 @@ func c01Level(c c01Case, set *c01Set) int { return set.Level }
 
 // ---- RIG-END
 
-func c01Run(c c01Case) verifkit.Result      { return c01RunMode(c, false) }
+func c01Run(c c01Case) verifkit.Result          { return c01RunMode(c, false) }
 func c01RunBytesRead(c c01Case) verifkit.Result { return c01RunMode(c, true) }
 
 // c01RunMode runs oracles (A)-(C); with bytesRead it additionally judges (D).
